@@ -87,6 +87,9 @@ type graph struct {
 	handlerPreNode   map[string][]handlerPair
 	handlerPreBranch map[string][][]handlerPair
 
+	// Workflow nodes with an input key that have a static value at or below that key
+	staticUnderInputKey map[string]bool
+
 	// for the edges whose handlers change the type of the value (runtime-checked conversion,
 	// field mapping): how a value parked in the end node's channel is converted from / to a
 	// stream when a checkpoint is written / read
@@ -729,8 +732,9 @@ func (g *graph) compile(ctx context.Context, opt *graphCompileOptions) (*composa
 	mappedInputNodes := make(map[string]bool, len(g.fieldMappingRecords))
 	staticInputNodes := make(map[string]bool, len(g.handlerPreNode))
 	for key := range g.fieldMappingRecords {
-		// at this point the only pre-node handlers are the ones that merge a Workflow node's static values in
-		staticInputNodes[key] = len(g.handlerPreNode[key]) > 0
+		// static values at or below the node's input key name that key themselves; static values at other keys
+		// of the map (which the node never reads) do not, the node keeps its keyed "no input"
+		staticInputNodes[key] = g.staticUnderInputKey[key]
 		// not allowed to map multiple fields to the same field
 		toMap := make(map[string]bool)
 		for _, mapping := range g.fieldMappingRecords[key] {
